@@ -6,7 +6,7 @@ use std::fs::File;
 use std::mem::ManuallyDrop;
 use std::os::unix::io::FromRawFd;
 
-use crate::verif_kani::shim::io::{BufReader, SymFile, FILES, MAX_FILE, READ_BUDGET, READ_CALLS};
+use crate::verif_kani::shim::io::{BufReader, SymFile, FILES, MAX_FILE, MAX_STALLS, READ_BUDGET};
 
 use super::FollowFileIterator;
 
@@ -43,46 +43,58 @@ fn item_is(item: &Option<String>, content: &[u8; MAX_FILE], range: Option<(usize
     }
 }
 
-/// Every way of writing a file of <= 4 bytes over {a, b, \n} and interleaving the appends with the
-/// follower's reads (the visible length may advance arbitrarily before every read): the items delivered
-/// are exactly the newline-terminated lines, in order, byte for byte; the tail is never delivered.
+fn count_lines(content: &[u8; MAX_FILE], len: usize) -> usize {
+    let mut n = 0;
+    let mut i = 0;
+    while i < MAX_FILE {
+        if i < len && content[i] == b'\n' { n += 1; }
+        i += 1;
+    }
+    n
+}
+
+/// Every way of writing a file of $len bytes over {a, b, \n} and interleaving the appends with the follower's
+/// reads (before every read the visible length may stay or advance by any amount; at most 2 reads find nothing
+/// new): the items delivered are exactly the newline-terminated lines, in order, byte for byte, and the
+/// follower does not starve (the read budget is never exceeded).  The unterminated tail is never delivered:
+/// the harness asks for exactly as many items as there are completed lines.
 macro_rules! follow_harness {
-    ($name:ident, $len:expr, $budget:expr, $unwind:expr) => {
+    ($name:ident, $len:expr, $unwind:expr, $fixed:expr) => {
         #[kani::proof]
         #[kani::unwind($unwind)]
         #[kani::stub(alloc::fmt::format, crate::verif_kani::common::stub_format)]
         fn $name() {
-            let content: [u8; MAX_FILE] = kani::any();
+            // $fixed: the content is concrete ("a\nb\n") and only the schedule is symbolic
+            let content: [u8; MAX_FILE] = if $fixed { [b'a', b'\n', b'b', b'\n'] } else { kani::any() };
             kani::assume((content[0] == b'a' || content[0] == b'b' || content[0] == b'\n')
                 && (content[1] == b'a' || content[1] == b'\n') && (content[2] == b'a' || content[2] == b'\n')
                 && (content[3] == b'a' || content[3] == b'\n'));
             let initially: usize = kani::any();
             kani::assume(initially <= $len);
+            let lines = count_lines(&content, $len);
             unsafe {
                 FILES[0] = SymFile { content, len: $len, visible: initially, pos: 0, growing: true };
-                READ_BUDGET = $budget;
-                READ_CALLS = 0;
+                MAX_STALLS = 2;
+                READ_BUDGET = $len + 2 + lines + 1;
             }
             let file = unsafe { File::from_raw_fd(3) };
             let mut it = ManuallyDrop::new(FollowFileIterator::new(BufReader::new(file)));
-            let i0 = ManuallyDrop::new(it.next());
-            let i1 = ManuallyDrop::new(if i0.is_some() { it.next() } else { None });
-            let i2 = ManuallyDrop::new(if i1.is_some() { it.next() } else { None });
-            assert!(item_is(&i0, &content, ref_line(&content, $len, 0)), "C10 the first item is the first completed line, byte for byte");
-            assert!(item_is(&i1, &content, ref_line(&content, $len, 1)), "C10 the second item is the second completed line, byte for byte");
-            assert!(item_is(&i2, &content, ref_line(&content, $len, 2)), "C10 the third item is the third completed line, byte for byte");
-            // nothing is lost: when the whole file was visible from the start, every completed line is delivered
-            if initially == $len {
-                assert!(i0.is_some() == ref_line(&content, $len, 0).is_some(), "C10 every completed line is delivered");
-                assert!(i1.is_some() == ref_line(&content, $len, 1).is_some(), "C10 every completed line is delivered");
-            }
-            kani::cover!(i1.is_some(), "follow: two lines delivered reachable");
-            kani::cover!(i0.is_some() && initially == 0, "follow: line delivered after appends reachable");
+            it.line.reserve(8);
+            let i0 = ManuallyDrop::new(if lines > 0 { it.next() } else { None });
+            let i1 = ManuallyDrop::new(if lines > 1 { it.next() } else { None });
+            let i2 = ManuallyDrop::new(if lines > 2 { it.next() } else { None });
+            if lines > 0 { assert!(i0.is_some() && item_is(&i0, &content, ref_line(&content, $len, 0)), "C10 the first item is the first completed line, byte for byte"); }
+            if lines > 1 { assert!(i1.is_some() && item_is(&i1, &content, ref_line(&content, $len, 1)), "C10 the second item is the second completed line, byte for byte"); }
+            if lines > 2 { assert!(i2.is_some() && item_is(&i2, &content, ref_line(&content, $len, 2)), "C10 the third item is the third completed line, byte for byte"); }
+            kani::cover!(lines == 2, "follow: two lines delivered reachable");
+            kani::cover!(lines >= 1 && initially == 0 && it.reader.stalls() >= 1, "follow: line delivered after appends with an idle poll reachable");
         }
     };
 }
-follow_harness!(c10_follow_len2, 2, 4, 6);
-follow_harness!(c10_follow_len3, 3, 5, 7);
+follow_harness!(c10_follow_len2, 2, 8, false);
+follow_harness!(c10_follow_len3, 3, 10, false);
+follow_harness!(c10_follow_schedule_len2, 2, 8, true);
+follow_harness!(c10_follow_schedule_len4, 4, 12, true);
 
 #[cfg(test)]
 #[path = "/verif/.cache/playback/helpers.rs"]
